@@ -95,6 +95,15 @@ def check(run):
                         guard("terms_within", lambda: obs.append(
                             {"kind": "ids", "path": "terms_within(%dseg)" % nseg,
                              "ids": sorted(docof[tuple(world_term(t))] for t in rd.terms_within("body", text, k, prefix=p))}))
+                        # the expansion is a lazy generator: a second expansion opened (and even consumed) while
+                        # this one is pending must not disturb it
+                        def overlapped():
+                            g1 = rd.terms_within("body", text, k, prefix=p)
+                            g2 = rd.terms_within("body", world.term_text(rng.choice(qwords)), 1)
+                            list(g2)
+                            obs.append({"kind": "ids", "path": "terms_within(%dseg) while another expansion ran" % nseg,
+                                        "ids": sorted(docof[tuple(world_term(t))] for t in g1)})
+                        guard("terms_within-overlapped", overlapped)
                         guard("FuzzyTerm", lambda: obs.append(
                             {"kind": "ids", "path": "FuzzyTerm(%dseg)" % nseg,
                              "ids": sorted(int(d) for d in s.docs_for_query(
